@@ -7,10 +7,11 @@
 -/
 import Influx.Lemmas.HLL
 import Influx.Lemmas.HLLAdd
+import Influx.Lemmas.HLLMarshal
 import Influx.Spec.C35
 
 namespace Influx.Props.C35
-open Influx.Model.HLL Influx.Lemmas.HLL Influx.Lemmas.HLLAdd Influx.Spec.C35
+open Influx.Model.HLL Influx.Lemmas.HLL Influx.Lemmas.HLLAdd Influx.Lemmas.HLLMarshal Influx.Spec.C35
 
 theorem ext_of_reg (x y : Array Nat) (n : Nat) (hx : x.size = n) (hy : y.size = n)
     (h : ∀ i, i < n → reg x i = reg y i) : x = y := by
@@ -139,6 +140,31 @@ theorem C35_union (p : Nat) (e : Plus) (he : newPlus p = some e) (A B U : List N
     supAt_set _ U (A ++ B) i (fun x => by rw [hU x, List.mem_append])
   rw [hset, supAt_append]
 
+/-! ### marshal / unmarshal -/
+
+/-- the compressed list (delta + varint) decodes to exactly what was appended -/
+theorem C35_compressed_list_roundtrip (vals : List Nat) (h : Asc 0 vals) :
+    decodeVals ((encodeVals 0 vals).length + 1) (encodeVals 0 vals) 0 = some vals :=
+  decodeVals_encodeVals vals 0 _ h (by have := encodeVals_length_ge vals 0; omega)
+
+/-- **`UnmarshalBinary(MarshalBinary(h))`** succeeds and restores the representation — precision, mode,
+    compressed list (after the `mergeSparse` that `MarshalBinary` performs) or registers — for every
+    sketch whose sparse lists are ascending 32-bit lists (`SInv`: true of everything `NewPlus`/`Add`/
+    `Merge` build: `newPlus_sinv`, `add_sinv`) and whose sizes fit the 32-bit length fields.
+    The Go `Count()` reads exactly these fields, so the estimate is preserved. -/
+theorem C35_marshal_roundtrip (h : Plus) (w : WF h) (s : SInv h)
+    (hsz : (encodeVals 0 (mergeSparse h).sparseVals).length < 2 ^ 32) :
+    ∃ h2, unmarshal (marshal h).2 = .ok h2 ∧ h2.p = h.p ∧ h2.sparse = h.sparse ∧
+      (h.sparse = true → h2.tmpSet = [] ∧ h2.sparseVals = (mergeSparse h).sparseVals) ∧
+      (h.sparse = false → h2.dense = h.dense) ∧ regs h2 = regs h := by
+  obtain ⟨h2, e, a, b, c, d⟩ := marshal_roundtrip h w s hsz
+  exact ⟨h2, e, a, b, c, d, marshal_regs h h2 w a b c d⟩
+
+/-- every sketch built by `NewPlus` and `Add`s satisfies the hypotheses of `C35_marshal_roundtrip` -/
+theorem C35_built_sketch_ok (p : Nat) (e : Plus) (he : newPlus p = some e) (xs : List Nat)
+    (hx : ∀ x, x ∈ xs → x < 2 ^ 64) : WF (addAll e xs) ∧ SInv (addAll e xs) :=
+  ⟨(sketch_regs p e he xs hx).1, addAll_sinv xs e (newPlus_sinv p e he)⟩
+
 /-- a sparse sketch and a dense one (the normalised copy of another sparse sketch), both with
     content: the hypotheses above are not vacuous -/
 def ex0 : Plus := { p := 4, sparse := true, tmpSet := [], sparseVals := [], sparseBytes := 0, dense := #[] }
@@ -159,6 +185,8 @@ inductive Op where
   | comm (a b : Plus) | assoc (a b c : Plus) | idem (a : Plus)
   /-- sketches of the hash lists `A`, `B` merged, vs the (normalised) sketch of `U` -/
   | union (p : Nat) (A B U : List Nat)
+  /-- `UnmarshalBinary(MarshalBinary(a))` vs `a` -/
+  | mrt (a : Plus)
 
 /-- `NewPlus(p)` and `Add`s; an unusable precision gives the empty record (excluded by `opOK`) -/
 def sketch (p : Nat) (xs : List Nat) : Plus :=
@@ -179,6 +207,8 @@ def modelObs (render : Array Nat → String) : Op → Obs
   | .union p A B U =>
     .regs .union (render (regs (okOr (merge (sketch p A) (sketch p B)) (sketch p A))))
                  (render (regs (okOr (merge (sketch p []) (sketch p U)) (sketch p U))))
+  | .mrt a =>
+    .regs .mrt (render (regs (match unmarshal (marshal a).2 with | .ok b => b | .error _ => a))) (render (regs a))
 
 example : WF exA ∧ WF exB ∧ exA.p = exB.p := ⟨exA_wf, exB_wf, by decide +kernel⟩
 
@@ -189,11 +219,13 @@ def opOK : Op → Prop
   | .idem a => WF a
   | .union p A B U => 4 ≤ p ∧ p ≤ 18 ∧ (∀ x, x ∈ A → x < 2 ^ 64) ∧ (∀ x, x ∈ B → x < 2 ^ 64) ∧
       (∀ x, x ∈ U ↔ (x ∈ A ∨ x ∈ B))
+  | .mrt a => WF a ∧ SInv a ∧ (encodeVals 0 (mergeSparse a).sparseVals).length < 2 ^ 32
 
 /-- **C35 (partial)**: the statement checker accepts the model's answer to every commutativity,
     associativity, idempotence and union observation, for all well-formed sketches (sparse or dense,
-    any content) of equal precision and all hash lists.  Missing: the marshal law (correspondence
-    only so far), equality of estimates (`Count` is not modelled) and, by nature, the error bound. -/
+    any content) of equal precision and all hash lists, and to every marshal observation.  Missing:
+    equality of estimates (`Count` is not modelled; it reads only fields shown equal) and, by nature,
+    the error bound. -/
 theorem C35_partial (render : Array Nat → String) (op : Op) (h : opOK op) :
     holdsOn (modelObs render op) = true := by
   cases op with
@@ -233,5 +265,9 @@ theorem C35_partial (render : Array Nat → String) (op : Op) (h : opOK op) :
       have := C35_union p e he [] U U n (by simp) hUb (by simp) hn
       exact this
     simp [modelObs, holdsOn, sketch, he, hc, hn, okOr, e1, e2]
+  | mrt a =>
+    obtain ⟨w, s, hsz⟩ := h
+    obtain ⟨h2, e, _, _, _, _, r⟩ := C35_marshal_roundtrip a w s hsz
+    simp [modelObs, holdsOn, e, r]
 
 end Influx.Props.C35
